@@ -55,10 +55,35 @@ def state_key(st):
     return (tuple(g[r] for r in x86.G64), tuple(sorted((i, m if not isinstance(m, tuple) else m[0]) for i, m in v.items())), tuple(sorted((a, b) for a, b in k.items() if not a.endswith("#v"))), fl["CF"], fl["AR"])
 
 
+def _escape_frames(di, i, st):
+    """A callee that is handed the address of (part of) this function's frame may write it: from here on, loads
+    from that frame count as defined (R20.2 is about slots only this function can have written).  Without this a
+    context object on the stack that the callee fills in would read as 'never written'."""
+    args = None
+    for (ci, t, a) in di.p1.callargs:
+        if ci.addr == i.addr:
+            args = a
+    if not args:
+        return
+    for r_, v in args.items():
+        if v is None:
+            continue
+        if v[0] in ("sp", "fr"):
+            k = absint.Interp.slot_key(v)
+            st[4][k[:-1] + ("*",)] = (0, 0)
+        else:
+            rs = absint.roots(v)
+            if rs and ("stack",) in rs:
+                st[4][("sp", "*")] = (0, 0)
+                for fid in di.p1.frames:
+                    st[4][("fr", fid, "*")] = (0, 0)
+
+
 def make_call_handler(lib, priv, arity, reports_for):
     def handler(di, i, st, final):
         gpr, vec, kreg, flags, slots = st
         f = di.f
+        _escape_frames(di, i, st)
         tgt = lib.resolve_reloc_target(f.obj, i) if i.rel else None
         if tgt is None:
             bt = i.branch_target()
